@@ -578,7 +578,7 @@ func assembledChecks(w *World) {
 		for _, alt := range []struct {
 			name string
 			sig  hotstuff.QuorumSignature
-		}{{"resplit", rs}, {"retype", retypeSig(qc.Signature())}} {
+		}{{"resplit", rs}, {"retype", retypeSig(qc.Signature())}, {"padded", padSig(qc.Signature())}} {
 			if alt.sig == nil || w.viol != nil {
 				continue
 			}
@@ -597,6 +597,9 @@ func assembledChecks(w *World) {
 				what := "whose signature bytes are divided differently among the same signers"
 				if alt.name == "retype" {
 					what = "whose signatures are presented as those of another scheme (same signers, same bytes)"
+				}
+				if alt.name == "padded" {
+					what = "one of whose signatures has bytes appended"
 				}
 				w.violate("C11", "C11/"+alt.name+"/accept-vs-reject", nil, "a certificate for %s %s: cached:%v uncached:%v right after the genuine certificate was verified", w.reg.sym(qc.BlockHash()), what, verdictB(c), verdictB(p))
 			}
